@@ -202,7 +202,8 @@ _installed = [False]
 
 def _install():
     if not _installed[0]:
-        sched.install([voltage])
+        import neuropixel, ibldsp.utils, ibldsp.fourier, ibldsp.voltage, ibldsp.waveform_extraction
+        sched.install([voltage], watch=[spikeglx, neuropixel, ibldsp.utils, ibldsp.fourier, ibldsp.voltage, ibldsp.waveform_extraction])
         fsseam.install([voltage])
         session.pin_dependencies()
         _installed[0] = True
